@@ -6,14 +6,9 @@ import (
 	"encoding/json"
 	"fmt"
 	"os"
-	"os/exec"
-	"sort"
-	"strings"
 	"testing"
 
 	"pgregory.net/rapid"
-
-	"github.com/KevoDB/kevo/pkg/engine"
 
 	"verif/internal/drive"
 	"verif/internal/ev"
@@ -53,231 +48,11 @@ func TestChild(t *testing.T) {
 	}
 }
 
-// Round is one process lifetime.
-type Round struct {
-	To    int    `json:"to"`    // executes steps [prev.To, To)
-	Clean bool   `json:"clean"` // close cleanly instead of crashing
-	SelA  uint32 `json:"sel_a"` // selects the site from the round's profile
-	SelB  uint32 `json:"sel_b"` // selects the hit number
-	// resolved by the run (recorded for replay and evidence)
-	Site string `json:"site,omitempty"`
-	N    int    `json:"n,omitempty"`
-}
-
-// Case is a program with a crash plan.
-type Case struct {
-	Program drive.Program `json:"program"`
-	Rounds  []Round       `json:"rounds"`
-}
-
 // Doc is the replay document.
 type Doc struct {
-	Property string `json:"property"`
-	Case     Case   `json:"case"`
-	Failure  string `json:"failure,omitempty"`
-}
-
-type failure struct {
-	sig, msg string
-}
-
-func copyDir(src, dst string) error {
-	return exec.Command("cp", "-a", src, dst).Run()
-}
-
-// verify opens dir in-process and compares with the candidate prefix states.
-// It returns the index of the matching state.
-func verify(dir string, p *drive.Program, states []drive.Model, lower, upper int, site string) (int, *failure) {
-	e, err := engine.NewEngineFacade(dir)
-	if err != nil {
-		return 0, &failure{"open-error@" + site, "reopen after " + site + ": " + err.Error()}
-	}
-	snap := drive.Observe(e, p)
-	_ = e.Close()
-	first := ""
-	for q := upper; q >= lower; q-- {
-		d := snap.EqualModel(states[q], p)
-		if d == "" {
-			return q, nil
-		}
-		if q == upper {
-			first = d
-		}
-	}
-	// classify: does it equal a state outside the window?
-	for q := range states {
-		if snap.EqualModel(states[q], p) == "" {
-			if q < lower {
-				return 0, &failure{"acked-write-lost@" + site,
-					fmt.Sprintf("state after %s equals prefix %d but %d writes were acknowledged (window %d..%d)", site, q, lower, lower, upper)}
-			}
-			return 0, &failure{"future-state@" + site, fmt.Sprintf("state equals prefix %d beyond the issued window %d..%d", q, lower, upper)}
-		}
-	}
-	return 0, &failure{"not-a-prefix@" + site, fmt.Sprintf("state after %s equals no prefix state (window %d..%d); vs newest candidate: %s", site, lower, upper, first)}
-}
-
-func idleSite(site string) bool {
-	// sites that lie between operations rather than inside one
-	return site == "" || site == "storage.put.after_mem" || site == "storage.batch.after_mem"
-}
-
-// runCase executes the plan. resolved reports the crash points actually used.
-func runCase(c *Case, replay bool) (*failure, []string) {
-	root, err := os.MkdirTemp("", "c02-")
-	if err != nil {
-		panic(err)
-	}
-	defer os.RemoveAll(root)
-	dir := root + "/db"
-	p := &c.Program
-	var classes []string
-	base := drive.Model{}
-	from := 0
-	for ri := range c.Rounds {
-		rd := &c.Rounds[ri]
-		to := rd.To
-		if to > len(p.Steps) {
-			to = len(p.Steps)
-		}
-		if to < from {
-			to = from
-		}
-		// prefix states of this round's segment
-		states := []drive.Model{base.Clone()}
-		var writeIdx []int
-		cur := base.Clone()
-		for i := from; i < to; i++ {
-			if p.Steps[i].IsWrite() {
-				cur.Apply(p, p.Steps[i])
-				states = append(states, cur.Clone())
-				writeIdx = append(writeIdx, i)
-			}
-		}
-		spec := drive.ChildSpec{Dir: dir, Program: p, From: from, To: to}
-		site := "clean-close"
-		if !rd.Clean {
-			if !replay || rd.Site == "" {
-				// profile this round on a copy of the directory
-				pdir := root + "/prof"
-				_ = os.RemoveAll(pdir)
-				if _, err := os.Stat(dir); err == nil {
-					if err := copyDir(dir, pdir); err != nil {
-						panic(err)
-					}
-					// the manifest stores absolute wal/sst paths: profile in place instead
-					_ = os.RemoveAll(pdir)
-				}
-				prof, err := profileRound(root, dir, spec)
-				if err != nil {
-					return &failure{"child-error@profile", err.Error()}, classes
-				}
-				sites := make([]string, 0, len(prof))
-				for s := range prof {
-					sites = append(sites, s)
-				}
-				sort.Strings(sites)
-				if len(sites) == 0 {
-					rd.Clean = true
-				} else {
-					rd.Site = sites[int(rd.SelA)%len(sites)]
-					rd.N = 1 + int(rd.SelB)%prof[rd.Site]
-				}
-			}
-		}
-		if !rd.Clean {
-			spec.CrashSite, spec.CrashN = rd.Site, rd.N
-			site = rd.Site
-		}
-		res, err := drive.RunChild(spec, root, fmt.Sprintf("r%d", ri))
-		if err != nil {
-			return &failure{"child-error@" + site, err.Error()}, classes
-		}
-		if res.WriteError != "" {
-			ev.R().Count("rounds_with_write_error", 1)
-			ev.R().Note("write error in child: " + res.WriteError)
-		}
-		acked := len(res.Acked)
-		upper := acked + 1
-		if upper > len(states)-1 {
-			upper = len(states) - 1
-		}
-		lower := 0
-		if !res.Crashed {
-			// clean close: exactly what was acknowledged
-			lower, upper = acked, acked
-			if res.WriteError != "" {
-				upper = acked + 1
-				if upper > len(states)-1 {
-					upper = len(states) - 1
-				}
-			}
-			if !rd.Clean {
-				ev.R().Count("crash_point_not_reached", 1)
-			}
-			site = "clean-close"
-		} else if p.Cfg.SyncMode == 2 {
-			lower = acked
-		}
-		if res.Crashed {
-			classes = append(classes, "crash:"+strings.SplitN(site, ".", 2)[0])
-			if !idleSite(site) {
-				classes = append(classes, "crash_inside_operation")
-			}
-		} else {
-			classes = append(classes, "clean_round")
-		}
-		q, f := verify(dir, p, states, lower, upper, site)
-		if f != nil {
-			f.msg = fmt.Sprintf("round %d steps [%d,%d) acked=%d: %s", ri, from, to, acked, f.msg)
-			return f, classes
-		}
-		base = states[q]
-		from = to
-		if res.Crashed {
-			// steps of this segment after the crash were never issued; continue with the next segment
-			_ = writeIdx
-		}
-	}
-	// final: open, close cleanly, reopen: exact
-	for k := 0; k < 2; k++ {
-		if _, f := verify(dir, p, []drive.Model{base}, 0, 0, "final-clean-reopen"); f != nil {
-			f.msg = fmt.Sprintf("final reopen %d: %s", k, f.msg)
-			return f, classes
-		}
-	}
-	return nil, classes
-}
-
-// profileRound runs the round's segment in profile mode on a scratch copy of
-// the database. The manifest holds absolute paths, so the copy is made by
-// moving the real directory aside and restoring it afterwards.
-func profileRound(root, dir string, spec drive.ChildSpec) (map[string]int, error) {
-	bak := root + "/bak"
-	_ = os.RemoveAll(bak)
-	had := false
-	if _, err := os.Stat(dir); err == nil {
-		had = true
-		if err := copyDir(dir, bak); err != nil {
-			return nil, err
-		}
-	}
-	spec.Profile = true
-	res, err := drive.RunChild(spec, root, "prof")
-	// restore
-	_ = os.RemoveAll(dir)
-	if had {
-		if err2 := os.Rename(bak, dir); err2 != nil {
-			return nil, err2
-		}
-	}
-	if err != nil {
-		return nil, err
-	}
-	if res.Profile == nil {
-		return nil, fmt.Errorf("no profile written; stderr: %s", res.Stderr)
-	}
-	return res.Profile, nil
+	Property string          `json:"property"`
+	Case     drive.CrashCase `json:"case"`
+	Failure  string          `json:"failure,omitempty"`
 }
 
 func progOpts() gen.ProgOpts {
@@ -287,7 +62,7 @@ func progOpts() gen.ProgOpts {
 	return o
 }
 
-func genCase(t *rapid.T) Case {
+func genCase(t *rapid.T) drive.CrashCase {
 	o := progOpts()
 	p := gen.Program(t, o)
 	// bias towards configurations in which the log outgrows the memtable budget
@@ -296,14 +71,14 @@ func genCase(t *rapid.T) Case {
 		p.Cfg.MaxMemTables = rapid.IntRange(1, 2).Draw(t, "mm")
 	}
 	nr := rapid.IntRange(1, 3).Draw(t, "rounds")
-	var rounds []Round
+	var rounds []drive.CrashRound
 	prev := 0
 	for i := 0; i < nr; i++ {
 		to := len(p.Steps)
 		if i < nr-1 {
 			to = rapid.IntRange(prev, len(p.Steps)).Draw(t, "to")
 		}
-		rounds = append(rounds, Round{
+		rounds = append(rounds, drive.CrashRound{
 			To:    to,
 			Clean: rapid.IntRange(0, 5).Draw(t, "clean") == 0,
 			SelA:  rapid.Uint32().Draw(t, "selA"),
@@ -311,13 +86,13 @@ func genCase(t *rapid.T) Case {
 		})
 		prev = to
 	}
-	return Case{Program: p, Rounds: rounds}
+	return drive.CrashCase{Program: p, Rounds: rounds}
 }
 
 func TestProp(t *testing.T) {
 	rapid.Check(t, func(t *rapid.T) {
 		c := genCase(t)
-		f, classes := runCase(&c, false)
+		f, classes := drive.RunCrashCase(&c, false, nil)
 		nt := false
 		for _, cl := range classes {
 			if cl == "crash_inside_operation" {
@@ -332,8 +107,8 @@ func TestProp(t *testing.T) {
 		}
 		ev.R().Case(ev.Hash(&c), nt, classes, func() any { return &c })
 		if f != nil {
-			path := ev.R().Fail(f.sig, f.msg, Doc{Property: "C02", Case: c, Failure: f.sig + ": " + f.msg})
-			t.Fatalf("C02 violated: %s: %s (replay %s)", f.sig, f.msg, path)
+			path := ev.R().Fail(f.Sig, f.Msg, Doc{Property: "C02", Case: c, Failure: f.Sig + ": " + f.Msg})
+			t.Fatalf("C02 violated: %s: %s (replay %s)", f.Sig, f.Msg, path)
 		}
 	})
 }
@@ -361,19 +136,19 @@ func TestPropExhaustive(t *testing.T) {
 		if err != nil {
 			panic(err)
 		}
-		prof, err := profileRound(root, root+"/db", drive.ChildSpec{Dir: root + "/db", Program: &p, From: 0, To: len(p.Steps)})
+		prof, err := drive.ProfileRound(root, root+"/db", drive.ChildSpec{Dir: root + "/db", Program: &p, From: 0, To: len(p.Steps)})
 		os.RemoveAll(root)
 		if err != nil {
 			t.Fatalf("profile: %v", err)
 		}
 		pts := drive.AllCrashPoints(prof)
 		for _, pt := range pts {
-			c := Case{Program: p, Rounds: []Round{{To: len(p.Steps), Site: pt.Site, N: pt.N}}}
-			f, classes := runCase(&c, true)
-			ev.R().Case(ev.Hash(&c), !idleSite(pt.Site), append(classes, "exhaustive"), func() any { return &c })
+			c := drive.CrashCase{Program: p, Rounds: []drive.CrashRound{{To: len(p.Steps), Site: pt.Site, N: pt.N}}}
+			f, classes := drive.RunCrashCase(&c, true, nil)
+			ev.R().Case(ev.Hash(&c), !drive.IdleSite(pt.Site), append(classes, "exhaustive"), func() any { return &c })
 			if f != nil {
-				path := ev.R().Fail(f.sig, f.msg, Doc{Property: "C02", Case: c, Failure: f.sig + ": " + f.msg})
-				t.Fatalf("C02 violated: %s: %s (replay %s)", f.sig, f.msg, path)
+				path := ev.R().Fail(f.Sig, f.Msg, Doc{Property: "C02", Case: c, Failure: f.Sig + ": " + f.Msg})
+				t.Fatalf("C02 violated: %s: %s (replay %s)", f.Sig, f.Msg, path)
 			}
 		}
 		ev.R().Count("exhaustive_programs", 1)
@@ -395,9 +170,9 @@ func TestReplay(t *testing.T) {
 	if err := json.Unmarshal(b, &d); err != nil {
 		t.Fatal(err)
 	}
-	f, _ := runCase(&d.Case, true)
+	f, _ := drive.RunCrashCase(&d.Case, true, nil)
 	if f != nil {
-		ev.WriteReplayResult(ev.ReplayResult{File: fn, Outcome: "fail", Signature: f.sig, Message: f.msg})
+		ev.WriteReplayResult(ev.ReplayResult{File: fn, Outcome: "fail", Signature: f.Sig, Message: f.Msg})
 		return
 	}
 	ev.WriteReplayResult(ev.ReplayResult{File: fn, Outcome: "pass"})
